@@ -443,6 +443,8 @@ def rule_encodepost(ctx):
 
 
 def _is_mod12(t):
+    if t.op == "const" and isinstance(t.a[0], (int, float)) and not isinstance(t.a[0], bool):
+        return 0 <= t.a[0] < 12  # a literal pitch class
     return t.op == "bin" and t.a[0] == "%" and tm.is_const(t.a[2], 12)
 
 
